@@ -29,7 +29,8 @@ META = {
                    'materialises the dataset. The check-then-act race of two threads asking for the same uncached index '
                    'and the dynamics of the memory threshold are not decided.',
     'not_decided': 'thread races on the same uncached index; dynamics of available memory',
-    'assumptions': ['dict / diskcache.Cache raise KeyError for absent keys and keep stored entries'],
+    'assumptions': ['dict / diskcache.Cache raise KeyError for absent keys and keep stored entries',
+                    'diskcache compares keys by their serialised form: 1 and numpy.int64(1) are different keys (a dict treats them as one)'],
 }
 
 
